@@ -1397,3 +1397,47 @@ V(id='c08-no-guard-digits', prop='C08', file='mpmath/libmp/libmpf.py',
 V(id='c08-mpc-repr-parts-swapped', prop='C08', file='mpmath/ctx_mp_python.py',
   old="        r = repr(s.real)[4:-1]\n        i = repr(s.imag)[4:-1]", new="        r = repr(s.imag)[4:-1]\n        i = repr(s.real)[4:-1]",
   expect='fire:W-R2:_mpc.__repr__')
+
+# ------------------------------------------------ C-R5g -------
+V(id='c14-atan2-four-guard-bits', prop='C14', file='mpmath/libmp/libelefun.py',
+  old="""    tquo = mpf_atan(mpf_div(y, x, wp, irnd), wp, irnd)
+    if xsign:
+        return mpf_add(mpf_pi(wp, irnd), tquo, prec, rnd)""",
+  new="""    tquo = mpf_atan(mpf_div(y, x, prec+4), prec+4)
+    if xsign:
+        return mpf_add(mpf_pi(prec+4), tquo, prec, rnd)""",
+  expect='fire:C-R5g:mpf_atan2')
+
+# ------------------------------------------------ C-R12, C-R13, V-R5, Q-R4 pairing, F-R1 subscripts ----
+V(id='c15-overlap-misses-containment', prop='C15', file='mpmath/libmp/libmpi.py',
+  old="    if mpf_lt(d, a): return False\n    if mpf_gt(c, b): return False\n    return True",
+  new="    return (mpf_le(c, a) and mpf_le(a, d)) or (mpf_le(c, b) and mpf_le(b, d))",
+  expect='fire:C-R12:mpi_overlap')
+V(id='c15-benign-overlap-rewritten', prop='C15', file='mpmath/libmp/libmpi.py',
+  old="    if mpf_lt(d, a): return False\n    if mpf_gt(c, b): return False\n    return True",
+  new="    return not (mpf_lt(d, a) or mpf_gt(c, b))",
+  expect='silent')
+V(id='c15-cosh-endpoint-pairing', prop='C15', file='mpmath/libmp/libmpi.py',
+  old="    c = mpi_add(e1, e2, prec)\n    s = mpi_sub(e1, e2, prec)",
+  new="    c = mpi_add(e1, (e2[1], e2[0]), prec)\n    if mpf_gt(c[0], c[1]):\n        c = mpi_add((e1[1], e1[0]), e2, prec)\n    s = mpi_sub(e1, e2, prec)",
+  expect='fire:C-R13:mpi_cosh_sinh')
+V(id='c15-benign-cosh-temporaries', prop='C15', file='mpmath/libmp/libmpi.py',
+  old="    c = mpi_add(e1, e2, prec)\n    s = mpi_sub(e1, e2, prec)",
+  new="    total = mpi_add(e1, e2, prec)\n    c = total\n    s = mpi_sub(e1, e2, prec)",
+  expect='silent')
+V(id='c09-from-float-cache', prop='C09', file='mpmath/libmp/libmpf.py',
+  edits=[("def from_float(x, prec=53, rnd=round_fast):", "float_cache = {}\n\ndef from_float(x, prec=53, rnd=round_fast):"),
+         ("    return from_man_exp(int(m*(1<<53)), e-53, prec, rnd)\n\ndef from_npfloat",
+          "    if prec >= 53 and x in float_cache:\n        return float_cache[x]\n    v = from_man_exp(int(m*(1<<53)), e-53, prec, rnd)\n    if len(float_cache) < 1000:\n        float_cache[x] = v\n    return v\n\ndef from_npfloat")],
+  expect='fire:V-R5:from_float')
+V(id='c35-identify-zip-keys-values', prop='C35', file='mpmath/identification.py',
+  old="            constants = [(ctx.mpf(v), name) for (name, v) in sorted(constants.items())]",
+  new="            names = sorted(constants)\n            constants = [(ctx.mpf(v), name) for (name, v) in zip(names, constants.values())]",
+  expect='fire:Q-R4:identify')
+V(id='c16-le-touching-then-lt', prop='C16', file='mpmath/libmp/libmpi.py',
+  old="def mpi_le(s, t):\n    sa, sb = s\n    ta, tb = t\n    if mpf_le(sb, ta): return True\n    if mpf_gt(sa, tb): return False\n    return None",
+  new="def mpi_le(s, t):\n    if s[1] == t[0]: return True\n    return mpi_lt(s, t)",
+  expect='fire:F-R1:mpi_le')
+V(id='c16-identity-shortcut', prop='C16', file='mpmath/ctx_iv.py',
+  old="    def __le__(s, t): return s._compare(t, libmp.mpi_le)", new="    def __le__(s, t): return s is t or s._compare(t, libmp.mpi_le)",
+  expect='fire:F-R3:ivmpf.__le__')
